@@ -336,8 +336,9 @@ Section FrameProofs.
     unfold FrameModel.f_header.
     destruct (_ && _); [|discriminate]. destruct (rd32 hdr <=? max_in); [|discriminate].
     destruct (rd32 hdr <=? _).
-    - intros H; inversion H; subst. Show. lia.
-    - destruct (f_hs <=? u32 (f_hs + rd32 hdr)) eqn:E; [|discriminate]. intros H; inversion H; subst. lia.
+    - intros H. assert (cap1 = f_hs + rd32 hdr) by congruence. lia.
+    - destruct (f_hs <=? u32 (f_hs + rd32 hdr)) eqn:E; [|discriminate]. intros H.
+      assert (cap1 = u32 (f_hs + rd32 hdr)) by congruence. lia.
   Qed.
 
   Definition turn_res (t : fturn CR) : frecv * list bytes * bytes :=
@@ -346,7 +347,7 @@ Section FrameProofs.
     match t with FEnd _ _ _ _ => True | FNext _ _ _ scr' _ _ => (length scr' < length scr)%nat end.
 
   Lemma mkR_norm cap got cr : f_hs <= blen got -> fr_norm (mkR cap got cr) = mkR cap got cr.
-  Proof. intros H. apply fr_norm_nonempty. intros ->. cbn in H. rewrite f_hs_is_8 in H. lia. Qed.
+  Proof. intros H. apply fr_norm_nonempty. intros ->. change (blen []) with 0 in H. rewrite f_hs_is_8 in H. lia. Qed.
 
   (* ---- body phase *)
   Lemma body_phase_spec cr cap1 got1 maxb1 scr1 pipe1 outs :
@@ -398,5 +399,175 @@ Section FrameProofs.
     assert (Hs : (length (io_tl scr1) < length scr1)%nat) by (destruct scr1; cbn in *; lia).
     destruct (blen (got1 ++ x) =? cap1); [|exact Hs].
     destruct (unflat cr (got1 ++ x)) as [cr' [m|]]; [exact Hs|exact I].
+  Qed.
+
+  (* ---- one turn of the receive loop = feeding the bytes it read to the byte machine *)
+  Lemma f_turn_spec st maxb scr pipe outs :
+    fr_wf st ->
+    let '(st', outs', pipe') := turn_res (f_turn st maxb scr pipe outs) in
+    fr_wf st' /\ exists x o, pipe = x ++ pipe' /\ outs' = outs ++ o /\
+      f_feed (fr_norm st) x = (fr_norm st', o) /\
+      (fr_err st = false -> 1 <= maxb -> 1 <= io_k scr -> pipe <> [] -> x <> []).
+  Proof.
+    intros Hwf. unfold FrameModel.f_turn.
+    destruct ((maxb =? 0) || fr_err st) eqn:Estop.
+    { cbn [turn_res]. split; auto. exists [], []. rewrite app_nil_r. repeat split; auto.
+      intros He Hm. rewrite He in Estop. lia. }
+    apply orb_false_iff in Estop. destruct Estop as [Emax Eerr].
+    specialize (Hwf Eerr).
+    set (cr := fr_cr st).
+    (* the buffer in use *)
+    assert (Hbuf : exists cap got, match fr_buf st with Some x => x | None => (f_scratch, []) end = (cap, got) /\
+                     fr_norm st = fr_norm (mkR cap got cr) /\
+                     (blen got < f_hs -> cap = f_scratch) /\ (f_hs <= blen got -> blen got < cap)).
+    { destruct st as [[[cap got]|] e cr1]; cbn in *; subst e.
+      - exists cap, got. repeat split; tauto.
+      - exists f_scratch, []. repeat split; auto. change (blen []) with 0. rewrite f_hs_is_8. lia. }
+    destruct Hbuf as (cap & got & -> & Hnorm & Hcap & Hgot). rewrite Hnorm. clear Hnorm Hwf.
+    assert (Hpp : pipe <> [] -> 0 < blen pipe) by apply blen_pos.
+    unfold f_header_phase.
+    destruct (blen got <? f_hs) eqn:Ehdr.
+    - (* header phase *)
+      destruct (f_recv_more got f_hs maxb scr pipe) as [[[[got1 maxb1] scr1] pipe1] short] eqn:Er.
+      destruct (f_recv_more_spec _ _ _ _ _ _ _ _ _ _ Er) as (x1 & -> & Hp & Hb & -> & -> & ->).
+      rewrite Ehdr in *.
+      assert (Hx1 : 1 <= maxb -> 1 <= io_k scr -> pipe <> [] -> x1 <> []).
+      { intros H1 H2 H3 ->. specialize (Hpp H3). change (blen []) with 0 in Hb. lia. }
+      destruct (blen x1 <? N.min maxb (f_hs - blen got)) eqn:Eshort.
+      + (* short read *)
+        cbn [turn_res]. split.
+        * intros _. cbn [fr_buf]. rewrite blen_app. split; [intros; apply Hcap; lia|lia].
+        * exists x1, []. rewrite app_nil_r. repeat split; auto.
+          apply feed_partial; [lia|]. left. lia.
+      + rewrite blen_app.
+        destruct (f_hs <=? blen got + blen x1) eqn:Ecomplete.
+        * (* header complete *)
+          assert (Hxne : x1 <> []) by (intros ->; change (blen []) with 0 in *; lia).
+          pose proof (feed_hdr_exact x1 got cap cr (Hcap ltac:(lia)) Hxne ltac:(lia)) as Hf.
+          unfold f_hdr_done in Hf.
+          destruct (f_header cap (got ++ x1)) as [cap1|] eqn:Eh.
+          -- pose proof (f_header_ge _ _ _ Eh) as Hge.
+             assert (Eg : (f_hs <=? blen (got ++ x1)) = true) by (rewrite blen_app; lia). rewrite Eg.
+             pose proof (body_phase_spec cr cap1 (got ++ x1) (maxb - blen x1) (io_tl scr) pipe1 outs
+                           ltac:(rewrite blen_app; lia) ltac:(rewrite blen_app; lia)) as Hbody.
+             destruct (turn_res (f_body_phase CR unflat cr cap1 (got ++ x1) (maxb - blen x1) (io_tl scr) pipe1 outs))
+               as [[st' outs'] pipe'].
+             destruct Hbody as (Hwf' & x2 & o & Hp2 & Ho & Hfeed & Hx2 & _).
+             split; auto. exists (x1 ++ x2), o. repeat split; auto.
+             ++ rewrite Hp, Hp2. now rewrite app_assoc.
+             ++ rewrite f_feed_app, Hf.
+                destruct (blen (got ++ x1) =? cap1) eqn:Eeq.
+                ** rewrite (Hx2 ltac:(lia)). unfold f_done in *.
+                   destruct (unflat cr (got ++ x1)) as [cr' [m|]]; cbn [FrameModel.f_feed];
+                     rewrite app_nil_r; exact Hfeed.
+                ** unfold mkR in Hfeed. rewrite Hfeed. reflexivity.
+             ++ intros _ H1 H2 H3 E. apply app_eq_nil in E. destruct E as [E _]. exact (Hx1 H1 H2 H3 E).
+          -- cbn [turn_res]. split; [intros E; discriminate|].
+             exists x1, []. rewrite app_nil_r. repeat split; auto.
+             rewrite Hf. f_equal. symmetry. apply fr_norm_nonempty. destruct got; [exact Hxne|discriminate].
+        * (* maxBytes ran out inside the header *)
+          assert (Eg : (f_hs <=? blen (got ++ x1)) = false) by (rewrite blen_app; lia). rewrite Eg.
+          cbn [turn_res]. split.
+          -- intros _. cbn [fr_buf]. rewrite blen_app. split; [intros; apply Hcap; lia|lia].
+          -- exists x1, []. rewrite app_nil_r. repeat split; auto.
+             apply feed_partial; [lia|]. left. lia.
+    - (* body phase straight away *)
+      assert (Eg : (f_hs <=? blen got) = true) by lia. rewrite Eg.
+      pose proof (body_phase_spec cr cap got maxb scr pipe outs ltac:(lia) ltac:(lia)) as Hbody.
+      destruct (turn_res (f_body_phase CR unflat cr cap got maxb scr pipe outs)) as [[st' outs'] pipe'].
+      destruct Hbody as (Hwf' & x2 & o & Hp2 & Ho & Hfeed & _ & Hbx).
+      assert (Ene : (blen got =? cap) = false) by lia. rewrite Ene in Hfeed.
+      split; auto. exists x2, o. repeat split; auto.
+      + rewrite mkR_norm by lia. exact Hfeed.
+      + intros _ H1 H2 H3 ->. specialize (Hpp H3). specialize (Hbx ltac:(lia)). change (blen []) with 0 in Hbx. lia.
+  Qed.
+
+  Lemma f_turn_scr st maxb scr pipe outs : fr_wf st -> turn_scr (f_turn st maxb scr pipe outs) scr.
+  Proof.
+    intros Hwf. unfold FrameModel.f_turn.
+    destruct ((maxb =? 0) || fr_err st) eqn:Estop; [exact I|].
+    apply orb_false_iff in Estop. destruct Estop as [Emax Eerr]. specialize (Hwf Eerr).
+    assert (Hbuf : exists cap got, match fr_buf st with Some x => x | None => (f_scratch, []) end = (cap, got) /\
+                     (f_hs <= blen got -> blen got < cap)).
+    { destruct st as [[[cap got]|] e cr1]; cbn in *.
+      - exists cap, got. split; tauto.
+      - exists f_scratch, []. split; auto. change (blen []) with 0. rewrite f_hs_is_8. lia. }
+    destruct Hbuf as (cap & got & -> & Hgot).
+    unfold f_header_phase.
+    destruct (blen got <? f_hs) eqn:Ehdr.
+    - destruct (f_recv_more got f_hs maxb scr pipe) as [[[[got1 maxb1] scr1] pipe1] short] eqn:Er.
+      destruct (f_recv_more_spec _ _ _ _ _ _ _ _ _ _ Er) as (x1 & -> & Hp & Hb & -> & -> & ->).
+      rewrite Ehdr in *.
+      destruct (blen x1 <? N.min maxb (f_hs - blen got)) eqn:Eshort; [exact I|].
+      assert (Hk : 1 <= io_k scr) by lia.
+      assert (Hs : (length (io_tl scr) < length scr)%nat) by (destruct scr; cbn in *; lia).
+      destruct (f_hs <=? blen (got ++ x1)) eqn:Ecomplete.
+      + destruct (f_header cap (got ++ x1)) as [cap1|] eqn:Eh; [|exact I].
+        rewrite Ecomplete. unfold f_body_phase.
+        destruct (blen (got ++ x1) <? cap1) eqn:Elt.
+        * destruct (f_recv_more (got ++ x1) cap1 (maxb - blen x1) (io_tl scr) pipe1) as [[[[got2 maxb2] scr2] pipe2] short] eqn:Er2.
+          destruct (f_recv_more_spec _ _ _ _ _ _ _ _ _ _ Er2) as (x2 & -> & Hp2 & Hb2 & -> & -> & ->).
+          assert (Hs2 : (length (io_tl (io_tl scr)) < length scr)%nat) by (destruct scr as [|? [|? ?]]; cbn in *; lia).
+          destruct (blen x2 <? _); [exact I|].
+          destruct (blen ((got ++ x1) ++ x2) =? cap1); [|exact Hs2].
+          destruct (unflat (fr_cr st) ((got ++ x1) ++ x2)) as [cr' [m|]]; [exact Hs2|exact I].
+        * destruct (blen (got ++ x1) =? cap1); [|exact Hs].
+          destruct (unflat (fr_cr st) (got ++ x1)) as [cr' [m|]]; [exact Hs|exact I].
+      + rewrite Ecomplete. exact Hs.
+    - assert (Eg : (f_hs <=? blen got) = true) by lia. rewrite Eg.
+      apply body_phase_scr; lia.
+  Qed.
+
+  (* ---- the whole loop, any fuel *)
+  Lemma f_in_loop_spec fuel : forall st maxb scr pipe outs st' outs' pipe',
+    fr_wf st -> f_in_loop fuel st maxb scr pipe outs = (st', outs', pipe') ->
+    fr_wf st' /\ exists x o, pipe = x ++ pipe' /\ outs' = outs ++ o /\ f_feed (fr_norm st) x = (fr_norm st', o).
+  Proof.
+    induction fuel as [|fuel IH]; intros st maxb scr pipe outs st' outs' pipe' Hwf H; cbn [FrameModel.f_in_loop] in H.
+    - inversion H; subst. split; auto. exists [], []. rewrite app_nil_r. auto.
+    - pose proof (f_turn_spec st maxb scr pipe outs Hwf) as Ht.
+      destruct (f_turn st maxb scr pipe outs) as [st1 o1 p1|st1 maxb1 scr1 p1 o1]; cbn [turn_res] in Ht.
+      + inversion H; subst. destruct Ht as (Hwf' & x & o & Hp & Ho & Hf & _). split; auto. exists x, o. auto.
+      + destruct Ht as (Hwf1 & x & o & Hp & Ho & Hf & _).
+        apply IH in H; auto. destruct H as (Hwf' & y & o2 & Hp2 & Ho2 & Hf2).
+        split; auto. exists (x ++ y), (o ++ o2). repeat split.
+        * rewrite Hp, Hp2. now rewrite app_assoc.
+        * rewrite Ho2, Ho. now rewrite app_assoc.
+        * rewrite f_feed_app, Hf, Hf2. reflexivity.
+  Qed.
+
+  Lemma f_do_input_spec st maxb scr pipe st' o pipe' :
+    fr_wf st -> f_do_input st maxb scr pipe = (st', o, pipe') ->
+    fr_wf st' /\ exists x, pipe = x ++ pipe' /\ f_feed (fr_norm st) x = (fr_norm st', o).
+  Proof.
+    unfold FrameModel.f_do_input. intros Hwf H.
+    destruct (f_in_loop_spec _ _ _ _ _ _ _ _ _ Hwf H) as (Hwf' & x & o' & Hp & Ho & Hf).
+    cbn in Ho. subst o'. eauto.
+  Qed.
+
+  Lemma f_do_input_progress st maxb scr pipe st' o pipe' :
+    fr_wf st -> fr_err st = false -> 1 <= maxb -> 1 <= io_k scr -> pipe <> [] ->
+    f_do_input st maxb scr pipe = (st', o, pipe') -> (length pipe' < length pipe)%nat.
+  Proof.
+    unfold FrameModel.f_do_input. intros Hwf He Hm Hk Hne H. cbn [FrameModel.f_in_loop] in H.
+    pose proof (f_turn_spec st maxb scr pipe [] Hwf) as Ht.
+    destruct (f_turn st maxb scr pipe []) as [st1 o1 p1|st1 maxb1 scr1 p1 o1]; cbn [turn_res] in Ht;
+      destruct Ht as (Hwf1 & x & o' & Hp & Ho & Hf & Hx); specialize (Hx He Hm Hk Hne).
+    - inversion H; subst. rewrite app_length. destruct x; [contradiction|cbn; lia].
+    - apply f_in_loop_spec in H; auto. destruct H as (_ & y & _ & Hp2 & _).
+      rewrite Hp, Hp2, !app_length. destruct x; [contradiction|cbn; lia].
+  Qed.
+
+  (* ---- fuel adequacy: |scr|+1 turns always suffice *)
+  Lemma f_in_fuel_enough fuel : forall st maxb scr pipe outs,
+    fr_wf st -> (length scr < fuel)%nat ->
+    f_in_loop fuel st maxb scr pipe outs = f_in_loop (S fuel) st maxb scr pipe outs.
+  Proof.
+    induction fuel as [|fuel IH]; intros st maxb scr pipe outs Hwf Hf; [lia|].
+    remember (S fuel) as f1. rewrite Heqf1 at 1. cbn [FrameModel.f_in_loop].
+    pose proof (f_turn_scr st maxb scr pipe outs Hwf) as Hs.
+    pose proof (f_turn_spec st maxb scr pipe outs Hwf) as Ht.
+    destruct (f_turn st maxb scr pipe outs) as [st1 o1 p1|st1 maxb1 scr1 p1 o1]; [reflexivity|].
+    cbn [turn_scr turn_res] in *. destruct Ht as (Hwf1 & _). subst f1. apply IH; auto. lia.
   Qed.
 End FrameProofs.
